@@ -269,6 +269,11 @@ inline auto BasicPromise::await_transform(A&& awaitable) noexcept {
 
 inline void BasicPromise::resume_in_executor(
     BasicExecutor* executor, ::std::coroutine_handle<> handle) noexcept {
+  // No binding executor: resume in-place
+  if (executor == nullptr) {
+    handle.resume();
+    return;
+  }
   auto ret = executor->invoke([handle] {
     handle.resume();
   });
